@@ -164,8 +164,8 @@ PROFILES.update({
              "norespawn": True},
     "overlap": {"Gs": [0.2, 0.3, 0.5, 1.0], "cmds": ["kill", "kill", "signal", "stop", "restart", "reload", "start", "incr", "decr", "decr", "set_np", "status", "list",
                          "numprocesses", "get", "globaloptions", "listsockets", "options", "stats"], "stubborn": 0.6, "partial": 0.5, "steps": 20},
-    "events": {"cmds": ["incr", "decr", "set_np", "reload", "kill", "stop", "start", "restart", "status", "status"], "kcall_deaths": 0.5,
-               "steps": 30},
+    "events": {"cmds": ["incr", "decr", "set_np", "reload", "kill", "stop", "start", "restart", "status", "status", "signal", "signal"],
+               "kcall_deaths": 0.5, "sigsoft": 0.6, "sigrec": 0.6, "fork": 0.15, "steps": 30},
     "excl": {"cmds": ["start", "stop", "restart", "reload", "incr", "decr", "set_np", "set_opt", "set_opt", "kill", "rm"], "stubborn": 0.5, "partial": 0.7,
              "hooks": ["before_start", "after_start", "before_spawn"], "faults": 0.2, "singleton": True,
              "deaths": False, "steps": 20},
